@@ -12,6 +12,7 @@ EXPLANATION = (
     "keys, unreadable func_code.py => rewrite + miss, vanished entries are skipped; the result is published before its "
     "metadata and presence keys on output.pkl only. Atomicity of rename(2) and torn-write behaviour of the file system "
     "are assumed, not decided."
+    " metadata.json: the reader's codec decodes everything the writer emits; expires_after compares the age with the whole duration; the new source is never stored ahead of the wipe of the old entries."
 )
 ASSUMPTIONS = [
     "os.replace is atomic on the same file system; a killed process leaves either the old or the new file under a final name",
